@@ -48,7 +48,7 @@ class Check(BaseCheck):
                    'grouping is judged by value: band 1e-9 relative for non-integers, exact for integer results')
 
     def plan(self, tier, seed):
-        specs = [{'campaign': 'sentinels'}]
+        specs = [{'campaign': 'sentinels'}] + [{'campaign': 'blanks', 'n': 1500 if tier == 'quick' else 15000, 'seed': seed, 'i': i} for i in range(2 if tier == 'quick' else 4)]
         if tier == 'quick':
             for i in range(16):
                 specs.append({'campaign': 'trees', 'n': 2500, 'seed': seed, 'i': i, 'maxdepth': [3, 5, 6, 8][i % 4]})
@@ -66,6 +66,8 @@ class Check(BaseCheck):
         try:
             if spec['campaign'] == 'sentinels':
                 self.sentinels(rec, e, trace)
+            elif spec['campaign'] == 'blanks':
+                self.blanks(spec, rec, e)
             else:
                 self.trees(spec, rec, e, trace)
         finally:
@@ -145,6 +147,54 @@ class Check(BaseCheck):
                           allow_div=rnd.random() < 0.8, ints_only=rnd.random() < 0.2)
             t = g.tree()
             self.judge_tree(rec, e, trace, t, rnd)
+
+    # ---- leaves that are blank: no exact model is consulted, the renderings of one tree are compared with each other
+    def blanks(self, spec, rec, e):
+        from ..oracle import outcome
+        rnd = self.rng(spec)
+        e.p.set_variable('v_blank', None)
+        e.p.set_function('NIL', lambda *a: None)
+        BL = [('var', 'v_blank', None), ('cell', 'ZZ99', None), ('cell', '$zz$98', None), ('var', 'NIL()', None)]
+
+        def sub(t):
+            k = t[0]
+            if k in ('int', 'dec', 'pow', 'pct', 'var', 'cell'):
+                return rnd.choice(BL) if rnd.random() < self_p[0] else t
+            if k == 'str':
+                return t
+            if k == 'call':
+                return ('call', t[1], [sub(a) for a in t[2]])
+            if k == 'neg':
+                return ('neg', sub(t[1]))
+            if k in ('bin', 'cmp'):
+                return (k, t[1], sub(t[2]), sub(t[3]))
+            if k == 'amp':
+                return ('amp', [sub(x) for x in t[1]])
+            return t
+        self_p = [0.3]
+        for n in range(spec['n']):
+            self_p[0] = rnd.choice([0.15, 0.3, 0.6, 1.0])
+            g = G.ExprGen(rnd, maxdepth=rnd.randint(1, 4), p_leaf=0.3, max_leaves=60)
+            t = sub(g.tree()) if n % 10 else rnd.choice(BL)
+            outs = {}
+            for mode in ('min', 'full', 'redundant', 'wrapped', 'wrapped-leaves'):
+                items = G.render(t, 'min' if mode.startswith('wrapped') else mode, rnd, p_extra=0.5)
+                f = G.text(items)
+                if mode == 'wrapped':
+                    f = '(' + f + ')'
+                elif mode == 'wrapped-leaves':
+                    for b in ('v_blank', 'ZZ99', '$zz$98', 'NIL()'):
+                        f = f.replace(b, '(' + b + ')')
+                outs[mode] = (f, outcome(e.raw(f)))
+                rec.case()
+            base = outs['min']
+            if any(o[1] != base[1] for o in outs.values()):
+                rec.violation('C04/renderings-disagree:blank-leaf', renderings={m: o[0][:200] for m, o in outs.items()}, outcomes={m: o[1] for m, o in outs.items()})
+            if len({o[0] for o in outs.values()}) > 1:
+                rec.nt(base[0])
+            rec.count('trees_with_blank_leaves')
+            rec.cov('blank_leaf_outcome_kinds', base[1][0] if base[1][0] == 'err' else base[1][1][0])
+        rec.sample({'formula': base[0][:200], 'what': 'blank leaves (empty variable, unset cell, function returning nothing): all renderings of one tree give the same outcome, type-strict'})
 
     def sentinels(self, rec, e, trace):
         I = lambda n: ('int', n)
